@@ -1,5 +1,7 @@
 import Driver.Common
 import LinkVerif.Model.Election
+import LinkVerif.Model.StateHash
+import LinkVerif.Go.Keccak
 
 namespace Driver.C05
 open Driver Go.Proto Model.Election
@@ -30,6 +32,24 @@ def electAnswer (toks : List String) : String :=
     | _, _, _, _ => "bad-elect"
   | _, _, _, _, _ => "bad-elect"
 
+/-- `kvh mode= ops=u.<key>.<value>,d.<key>,…`: the real wrappedTrie.Hash against Model.StateHash.hashOf over the records
+`keccak(key) ++ value` (a delete is the value "DD"); a second Hash() in a row is the hash of nothing -/
+def kvhAnswer (toks : List String) : String :=
+  let opss := (arg? toks "ops").getD ""
+  let recs : List (List UInt8) := (opss.splitOn ",").filterMap (fun o =>
+    match o.splitOn "." with
+    | ["u", k, v] => do
+      let kb ← hexDecode? k
+      let vb ← if v.isEmpty then some [] else hexDecode? v
+      pure (Go.Keccak.keccak256L kb ++ vb)
+    | ["d", k] => do
+      let kb ← hexDecode? k
+      pure (Go.Keccak.keccak256L kb ++ "DD".toUTF8.toList)
+    | _ => none)
+  let h := Model.StateHash.hashOf Go.Keccak.keccak256L recs
+  let h0 := Model.StateHash.hashOf Go.Keccak.keccak256L []
+  s!"h={hexEncode h} n={recs.length} again={hexEncode (h0.take 8)}"
+
 /-- the claim itself: every replica agrees after every block and a re-execution reproduces every digest
 (the theorems of Props.C05 cover the order-freedom of the state hash, the worker-count independence of the pre-check and the
 election as a function of the candidate set; replica agreement on the real application is what the harness compares) -/
@@ -40,6 +60,7 @@ def step (h : Nat) (toks : List String) : Nat × String :=
   | "sblock" :: _ => (h + 1, s!"h={h + 1} agree=true")
   | "rerun" :: _ => (h, s!"same=true blocks={h}")
   | "elect" :: _ => (h, electAnswer toks)
+  | "kvh" :: _ => (h, kvhAnswer toks)
   | _ => (h, "ok")
 
 def machine : Machine := { σ := Nat, init := 0, step := step }
